@@ -269,6 +269,56 @@ def same_outcome(ex, x, y, locs, tags):
     return z3.And(*c) if c else z3.BoolVal(True)
 
 
+def delivery_obligations(ck, G, ex, st, ctx, Aov, names, hostcb):
+    """"Every send with interrupts enabled is followed by at least one interrupt delivery to the other side": one send from an
+    arbitrary mailbox / semaphore / ICU state; host->DSP delivery = IRQ 0xE recorded in the ICU request word and latched on
+    every core line (and the vectored line) it is enabled for; DSP->host delivery = the host callback is invoked."""
+    L = G.L
+    impl = ctx['impl']
+    v = LV['a']
+    PT = kit.find_type(G.mod, 'Teakra::Processor::Impl"')
+    poff = G.mod.offsets(PT)
+    pr = ctx['proc']
+    IL = L['Interpreter']
+    for i in range(4):
+        if i < 3:
+            nm, op, cond = 'SendData(%d)' % i, ('a', '@ti_senddata', [impl, i, v]), names['apbp_from_cpu.ch%d.disable' % i] == 0
+        else:
+            nm, op, cond = 'SetSemaphore', ('a', '@ti_setsemaphore', [impl, v]), (v & ~names['apbp_from_cpu.mask']) != 0
+        try:
+            r = lin_run(G, ex, st, ctx, hostcb, [op])
+        except (Abort, UnwindBound) as x:
+            ck.inconclusive.append('Delivery[%s]: %s' % (nm, str(x)[:100]))
+            continue
+        s1 = r['st']
+        req = bv(ex.load(s1, Ptr(impl.r, G.off['icu'] + L['ICU']['request'][0]), 2), 16)
+        g = [z3.Extract(14, 14, req) == 1]
+        off, sz, cnt, stride = IL['interrupt_pending']
+        for k in range(3):
+            latch = bv(ex.load(s1, Ptr(pr.r, pr.o + poff[2] + off + k * stride), 1), 8)
+            g.append(z3.Implies(z3.Extract(14, 14, names['icu.enabled[%d]' % k]) == 1, latch != 0))
+        vl = bv(ex.load(s1, Ptr(pr.r, pr.o + poff[2] + IL['vinterrupt_pending'][0]), 1), 8)
+        g.append(z3.Implies(z3.Extract(14, 14, names['icu.vectored_enabled']) == 1, vl != 0))
+        ck.nstates += 1
+        ck.prove('Delivery[%s]' % nm, Aov + [cond], z3.And(*g), vars=dict({'value': v}, **{n: t for n, t in names.items() if n.startswith(('apbp_from_cpu', 'icu.enabled', 'icu.request', 'icu.vectored_enabled'))}),
+                 sample='%s with its interrupt enabled (%s): IRQ 0xE is recorded in the ICU request word and latched on every core line / the vectored line it is enabled for, whatever the mailbox, semaphore and ICU state was before' % (nm, 'channel interrupt not disabled' if i < 3 else 'an unmasked bit among the bits set'))
+    v2 = LV['b']
+    for i in range(4):
+        if i < 3:
+            nm, op, cond, cb = 'MMIO write %#05x (reply %d)' % (0xC0 + 4 * i, i), ('b', '@ti_mmio_write', [impl, 0xC0 + 4 * i, v2]), names['apbp_from_dsp.ch%d.disable' % i] == 0, 'apbp_from_dsp data handler %d' % i
+        else:
+            nm, op, cond, cb = 'MMIO write 0x0cc (set semaphore)', ('b', '@ti_mmio_write', [impl, 0xCC, v2]), (v2 & ~names['apbp_from_dsp.mask']) != 0, 'apbp_from_dsp semaphore handler'
+        try:
+            r = lin_run(G, ex, st, ctx, hostcb, [op])
+        except (Abort, UnwindBound) as x:
+            ck.inconclusive.append('Delivery[%s]: %s' % (nm, str(x)[:100]))
+            continue
+        fired = z3.Or(*[g_ for n_, g_ in r['cbs'] if n_ == cb]) if any(n_ == cb for n_, g_ in r['cbs']) else z3.BoolVal(False)
+        ck.nstates += 1
+        ck.prove('Delivery[%s]' % nm, Aov + [cond], fired, vars=dict({'value2': v2}, **{n: t for n, t in names.items() if n.startswith('apbp_from_dsp')}),
+                 sample='DSP %s with its interrupt enabled: the host callback is invoked, whatever the mailbox / semaphore state was before' % nm)
+
+
 def interleave_points(acqA, acqB):
     """indices k >= 1 of A's acquisitions at which B can run: B needs the mutex A is about to take and none A holds"""
     needB = {a[0] for a in acqB}
@@ -518,6 +568,7 @@ def run(tier, seed):
             ck.engine_errors.append(r['__error__'])
         else:
             ck.absorb(r)
+    delivery_obligations(ck, G, ex, st, ctx, A, names, hostcb)
     # ---- re-entrancy: a host callback is never invoked while a non-recursive mutex is held
     for entry, cbname, held in allcb:
         bad = [h for h in held if 'semaphore_mutex' not in h]
